@@ -65,6 +65,11 @@ class InitCursor:
         """Create an initialization level."""
         assert isinstance(typ, types.CType)
 
+        if typ.is_struct_or_union and not typ.is_complete:
+            self.context.error(
+                "Cannot initialize an object of incomplete type", location
+            )
+
         if typ.is_struct:
             if not initializer:
                 initializer = expressions.StructInitializer(typ, location)
